@@ -800,7 +800,9 @@ class QueryBuilder(Selectable, Term):  # type:ignore[misc]
             raise QueryException("Unsupported update_field")
 
         if update_value is not None:
-            self._on_conflict_do_updates.append((field, ValueWrapper(update_value)))
+            self._on_conflict_do_updates.append(
+                (field, self.wrap_constant(update_value, wrapper_cls=self._wrapper_cls))
+            )
         else:
             self._on_conflict_do_updates.append((field, None))
 
